@@ -61,8 +61,13 @@ fn obj(v: Value) -> Map<String, Value> {
 }
 
 fn image_info(g: &mut G) -> Value {
+    media_info(g, true)
+}
+
+/// `visual`: image / video / sticker infos carry dimensions, file and audio infos do not.
+fn media_info(g: &mut G, visual: bool) -> Value {
     let mut o = Map::new();
-    if g.b() {
+    if g.b() && visual {
         o.insert("h".into(), json!(g.int() % 5000));
         o.insert("w".into(), json!(g.int() % 5000));
     }
@@ -136,7 +141,17 @@ pub fn room_message(g: &mut G) -> Value {
                 o.insert("url".into(), json!(g.mxc()));
             }
             if g.b() {
-                o.insert("info".into(), image_info(g));
+                let info = if msgtype == "m.audio" {
+                    // audio info has no thumbnail either
+                    let mut a = Map::new();
+                    if g.b() { a.insert("duration".into(), json!(g.int() % 100000)); }
+                    if g.b() { a.insert("mimetype".into(), json!("audio/ogg")); }
+                    if g.b() { a.insert("size".into(), json!(g.int())); }
+                    Value::Object(a)
+                } else {
+                    media_info(g, matches!(msgtype, "m.image" | "m.video"))
+                };
+                o.insert("info".into(), info);
             }
             if g.b() {
                 o.insert("filename".into(), json!(g.s()));
